@@ -371,6 +371,13 @@ def gen_c03(rng, n):
         if rng.random() < 0.35:
             # query, then mutate in place, then look at every view again
             b.add(f"touch {r} {rng.choice(['values', 'both', 'frame', 'stat', 'deltas'])}")
+            if rng.random() < 0.6:
+                # … and evaluate before the mutation: anything limit / sample memoises must not survive the layer call
+                # (seeded C03-13: lookup arrays kept on the instance, not reset on the undefined-region path of layer)
+                xs0 = " ".join(fs(x) for x in b.critical())
+                if xs0:
+                    b.add(f"limit {r} {rng.choice(['left', 'right'])} {xs0} ;; form=list")
+                    b.add(f"sample {r} {xs0} ;; form=list")
             u = rng.random()
             if u < 0.4:
                 b.add(f"layer {r} none none {rng.choice([1, -2, 3])}" + rng.choice(["", " ;; kw=1", " ;; none=inf"]))
